@@ -16,6 +16,8 @@ def run(ck):
     batches = [('b%d' % b, dict(('h%d' % i, incr.gen_history(ck.rng, 'untouched')) for i in range(b, min(n, b + batch))))
                for b in range(0, n, batch)]
     incr.check_histories_parallel(ck, d, batches, ('C03',))
+    from slices import engine
+    engine.two_invocations(ck, 'C03', n_quick=6, fail_p=0.15)
     incr.flush(ck)
     vf.sh(['rm', '-rf', d])
 
